@@ -5,7 +5,7 @@ use buffer_redux::BufReader;
 use byteorder::{BigEndian, ByteOrder};
 use nom::{
     branch::alt,
-    bytes::streaming::{tag, take, take_until, take_until1},
+    bytes::streaming::{tag, take, take_until},
     character::streaming::{digit1, line_ending, not_line_ending, space0},
     combinator::{complete, map, map_res, opt, success, value},
     multi::many0,
@@ -190,31 +190,29 @@ fn armor_header_line(i: &[u8]) -> IResult<&[u8], BlockType> {
 }
 
 /// Parses a single key value pair, for the header.
+///
+/// Works on one complete line: incomplete input is reported as such (so that a header line that
+/// is split over two reads is completed instead of failing), and the search for the separator
+/// never leaves the line.
 fn key_value_pair(i: &[u8]) -> IResult<&[u8], (&str, &str)> {
-    let (i, key) = map_res(
-        alt((
-            complete(take_until1(":\r\n")),
-            complete(take_until1(":\n")),
-            complete(take_until1(": ")),
-        )),
-        str::from_utf8,
-    )
-    .parse(i)?;
+    let (rest, line) = terminated(not_line_ending, line_ending).parse(i)?;
+    let err = || nom::Err::Error(nom::error::Error::new(i, nom::error::ErrorKind::Tag));
 
-    // consume the ":"
-    let (i, _) = tag(":")(i)?;
-    let (i, t) = alt((tag(" "), line_ending)).parse(i)?;
-
-    let (i, value) = if t == b" " {
-        let (i, value) = map_res(not_line_ending, str::from_utf8).parse(i)?;
-        let (i, _) = line_ending(i)?;
-        (i, value)
+    // "key: value", or "key:" for an empty value
+    let (key, value) = if let Some(pos) = line.windows(2).position(|w| w == b": ") {
+        (&line[..pos], &line[pos + 2..])
+    } else if let Some((b':', key)) = line.split_last() {
+        (key, &b""[..])
     } else {
-        // empty value
-        (i, "")
+        return Err(err());
     };
+    if key.is_empty() {
+        return Err(err());
+    }
+    let key = str::from_utf8(key).map_err(|_| err())?;
+    let value = str::from_utf8(value).map_err(|_| err())?;
 
-    Ok((i, (key, value)))
+    Ok((rest, (key, value)))
 }
 
 /// Parses a list of key value pairs.
